@@ -35,6 +35,8 @@ pub enum FieldsSpec {
 }
 #[derive(Clone, Debug, PartialEq)]
 pub enum VSet {
+    /// the whole variant through `Variants::variant_unit(name, index)`
+    Unit(u8),
     Index(u8),
     Fields(FieldsSpec),
     Discriminant(u64),
@@ -156,7 +158,7 @@ fn fields_spec_reps() -> Vec<FieldsSpec> {
 }
 
 pub fn variant_scripts() -> Vec<Vec<VSet>> {
-    let mut out = vec![];
+    let mut out = vec![vec![VSet::Unit(0)], vec![VSet::Unit(7)], vec![VSet::Unit(255)]];
     for idx in [0u8, 7, 255] {
         for f in std::iter::once(None).chain(fields_spec_reps().into_iter().map(Some)) {
             for disc in [None, Some(0u64), Some(u64::MAX)] {
@@ -334,7 +336,7 @@ pub fn model_meta(s: &Script) -> Type<MetaForm> {
                     let mut d: Vec<&'static str> = vec![];
                     for c in calls {
                         match c {
-                            VSet::Index(i) => idx = *i,
+                            VSet::Index(i) | VSet::Unit(i) => idx = *i,
                             VSet::Fields(f) => fields = fields_model_meta(f),
                             VSet::Discriminant(_) => {}
                             VSet::Docs(a, c) => docs_model(&mut d, *a, *c),
@@ -374,7 +376,7 @@ pub fn model_portable(s: &Script) -> Type<PortableForm> {
                     let mut d: Vec<String> = vec![];
                     for c in calls {
                         match c {
-                            VSet::Index(i) => idx = *i,
+                            VSet::Index(i) | VSet::Unit(i) => idx = *i,
                             VSet::Fields(f) => fields = fields_model_portable(f),
                             VSet::Discriminant(_) => {}
                             VSet::Docs(_, c) => {
@@ -525,7 +527,11 @@ pub fn run_meta(s: &Script) -> Type<MetaForm> {
         Terminal::Variant(vs) => {
             let mut v = Variants::new();
             for (n, calls) in vs {
-                v = v.variant(VNAMES[*n as usize], |_vb| run_variant_meta(VNAMES[*n as usize], calls));
+                if let [VSet::Unit(i)] = calls.as_slice() {
+                    v = v.variant_unit(VNAMES[*n as usize], *i);
+                } else {
+                    v = v.variant(VNAMES[*n as usize], |_vb| run_variant_meta(VNAMES[*n as usize], calls));
+                }
             }
             b.variant(v)
         }
@@ -674,7 +680,11 @@ pub fn run_portable(s: &Script) -> Type<PortableForm> {
         Terminal::Variant(vs) => {
             let mut v = Variants::<PortableForm>::new();
             for (n, calls) in vs {
-                v = v.variant(VNAMES[*n as usize].to_string(), |_vb| run_variant_portable(VNAMES[*n as usize], calls));
+                if let [VSet::Unit(i)] = calls.as_slice() {
+                    v = v.variant_unit(VNAMES[*n as usize].to_string(), *i);
+                } else {
+                    v = v.variant(VNAMES[*n as usize].to_string(), |_vb| run_variant_portable(VNAMES[*n as usize], calls));
+                }
             }
             b.variant(v)
         }
